@@ -20,7 +20,7 @@ func init() {
 		ID:    "C03",
 		Level: "exploration",
 		Rule: "scripted byte streams of 1-8 frames read through Channel.ReadFcall over an in-memory conn: frame classes {valid of all 27 kinds, exactly msize, oversize by k in {1,2,3,4,5,11,msize,2*msize,rnd}, " +
-			"body truncated by 1-8 bytes (prefix consistent), body extended, hostile inner length fields, length prefix 0-7, unknown type byte, stream cut mid-frame}; msize in {32,64,256,4096,65536} reached directly or by SetMSize shrink/grow; " +
+			"body truncated by 1-8 bytes (prefix consistent), body extended, hostile inner length fields, length prefix 0-7, unknown type byte, stream cut mid-frame}; msize in {32,64,256,4096,65536} reached directly or by SetMSize shrink/grow, and changed by SetMSize between two reads of one stream; " +
 			"chunkings {1 byte, split inside the prefix, frame-straddling PRNG, whole stream}. Oracle: each ReadFcall result must equal the isolated expectation computed from that frame's bytes and msize alone by the reference codec " +
 			"(message / Overflow==len-msize / error) and must equal the result of reading the same frame on a fresh channel (frame isolation); later well-formed frames must still be delivered. " +
 			"non-trivial = stream has an abnormal frame followed by a normal one, or a short frame after adversarial residue; distinct by the sequence of (frame class, length delta)",
@@ -31,7 +31,7 @@ func init() {
 		Shards:   shards(8, 16),
 		Timeout:  timeouts(5*time.Minute, 30*time.Minute),
 		MinEvals: 500,
-		Required: []string{"class:valid", "class:exact", "class:oversize", "class:truncated", "class:prefix<4", "class:prefix4-6", "class:badtype", "class:tailcut", "class:hostile", "after_abnormal_delivered", "residue_probes"},
+		Required: []string{"midstream_setmsize", "class:valid", "class:exact", "class:oversize", "class:truncated", "class:prefix<4", "class:prefix4-6", "class:badtype", "class:tailcut", "class:hostile", "after_abnormal_delivered", "residue_probes"},
 		Run:      runC03,
 	})
 }
@@ -74,6 +74,7 @@ type c03frame struct {
 	over   int
 	fatal  bool // stream position unspecified afterwards
 	cut    bool // stream ends inside this frame
+	m      int  // msize in force when this frame is read
 }
 
 func setPrefix(b []byte, n uint32) {
@@ -292,8 +293,24 @@ func runC03(w *mon.W) {
 		n := 1 + w.Rng.Intn(8)
 		var frames []c03frame
 		var stream []byte
+		// optionally the msize changes in mid-stream (SetMSize between two reads)
+		switchAt, M2 := -1, M
+		if n > 1 && w.Rng.Intn(4) == 0 {
+			switchAt = 1 + w.Rng.Intn(n-1)
+			M2 = msizes[w.Rng.Intn(len(msizes))]
+		}
+		curM := M
 		for j := 0; j < n; j++ {
-			f := genFrameC03(w, g, M, j == n-1)
+			if j == switchAt {
+				curM = M2
+				if curM <= 64 {
+					g.MaxStr, g.MaxData, g.MaxList = 12, 24, 3
+				} else {
+					g.MaxStr, g.MaxData, g.MaxList = 300, 1200, 20
+				}
+			}
+			f := genFrameC03(w, g, curM, j == n-1)
+			f.m = curM
 			frames = append(frames, f)
 			stream = append(stream, f.bytes...)
 			if f.cut {
@@ -309,7 +326,7 @@ func runC03(w *mon.W) {
 			}
 			fc := &p9p.Fcall{Type: p9p.Twrite, Tag: 0x6B6B, Message: p9p.MessageTwrite{Fid: 0x6B6B6B6B, Offset: 0x6B6B6B6B6B6B6B6B, Data: d}}
 			fr := refcodec.MustFrame(fc)
-			frames = append([]c03frame{{class: "valid", bytes: fr, expect: "msg", msg: fc}}, frames...)
+			frames = append([]c03frame{{class: "valid", bytes: fr, expect: "msg", msg: fc, m: M}}, frames...)
 			stream = append(append([]byte{}, fr...), stream...)
 			w.Count("residue_probes", 1)
 		}
@@ -348,25 +365,31 @@ func runC03(w *mon.W) {
 
 		var classes []string
 		for _, f := range frames {
-			classes = append(classes, fmt.Sprintf("%s%+d", f.class, len(f.bytes)-M))
+			classes = append(classes, fmt.Sprintf("%s%+d", f.class, len(f.bytes)-f.m))
 		}
-		caseDesc := fmt.Sprintf("msize=%d chan=%s chunks=%s frames=[%s] stream=%s", M, how, chunkName, strings.Join(classes, " "), hexHead(stream))
+		caseDesc := fmt.Sprintf("msize=%d (->%d before frame %d) chan=%s chunks=%s frames=[%s] stream=%s", M, M2, switchAt, how, chunkName, strings.Join(classes, " "), hexHead(stream))
 		w.Case("%s", caseDesc)
 		w.Eval()
 
 		judged := true
 		abnormalSeen := false
 		nontrivial := false
+		inForce := M
 		for j, f := range frames {
+			if f.m != inForce {
+				ch.SetMSize(f.m)
+				inForce = f.m
+				w.Count("midstream_setmsize", 1)
+			}
 			got := readOne(ch)
 			w.Count("class:"+f.class, 1)
 			w.Count("frames_read", 1)
 			if judged {
-				judgeC03(w, f, got, M, j, caseDesc)
+				judgeC03(w, f, got, f.m, j, caseDesc)
 				if f.expect != "msg" && !f.fatal {
 					// isolation: the same frame alone on a fresh channel
 					fconn := &wire.Script{In: f.bytes}
-					fch := p9p.NewChannel(fconn, M)
+					fch := p9p.NewChannel(fconn, f.m)
 					alone := readOne(fch)
 					if !sameOutcome(alone, got) {
 						w.Violate("mismatch", "C03:not-isolated:"+f.class,
